@@ -1,8 +1,6 @@
 package main
 
 import (
-	"fmt"
-	"go/token"
 	"strings"
 
 	"golang.org/x/tools/go/ssa"
@@ -16,120 +14,7 @@ func joinKey(jr *joinRoles, fn *ssa.Function, suffix string) string {
 	return k
 }
 
-// J1: each received value reaches exactly one call of the accept function.
-func checkJ1(c *Ctx, jr *joinRoles) {
-	p := jr.p
-	for _, fn := range jr.loops {
-		cfg := &ItemFlowConfig{
-			P:        p,
-			IsSource: func(rs *RecvSite) bool { return p.chanRole(rs.Chan) == "field:opts.Input" },
-			SinkCall: func(fr *Frame, call ssa.CallInstruction) (bool, ssa.Value) {
-				if p.Callee(call) == jr.accept && len(call.Common().Args) >= 2 {
-					return true, call.Common().Args[1]
-				}
-				return false, nil
-			},
-			StopEdge: func(fr *Frame, from *ssa.BasicBlock, succ int) bool { return p.stopEdge(from, succ) },
-		}
-		res := RunItemFlow(cfg, fn)
-		c.R.Check(len(res.Problems) == 0 && res.Sources > 0, "J1", joinKey(jr, fn, ""), p.Pos(fn.Pos()),
-			fmt.Sprintf("%d receive site(s), each value handed to %s exactly once; closed => no hand-over", res.Sources, jr.accept.Name()), strings.Join(res.Problems, "; "))
-		// the closed edge must leave the loop (also C19/G4): reuse loopCheck with closed-edge exits
-		for _, rs := range p.RecvSites(fn) {
-			if p.chanRole(rs.Chan) != "field:opts.Input" {
-				continue
-			}
-			if rs.Ok == nil {
-				c.R.Fail("J1", joinKey(jr, fn, "closed"), rs.Pos(p), "input receive does not observe the closed state")
-			}
-		}
-	}
-}
 
-// J2: accept function ingests the whole parameter exactly once (unite: or forwards it whole), never both.
-func checkJ2(c *Ctx, jr *joinRoles) {
-	p := jr.p
-	fn := jr.accept
-	var problems []string
-	itemParam := fn.Params[len(fn.Params)-1]
-	isItem := func(fr *Frame, v ssa.Value) bool {
-		v = stripChangeType(v)
-		r, _ := fr.Resolve(v)
-		return stripChangeType(r) == ssa.Value(itemParam)
-	}
-	bump := func(st string) []string {
-		switch st {
-		case "0":
-			return []string{"1"}
-		case "1", "2":
-			return []string{"2"}
-		}
-		return nil
-	}
-	fl := &Flow{P: p}
-	fl.Instr = func(fr *Frame, st string, in ssa.Instruction) []string {
-		if st == "X" {
-			return nil
-		}
-		if src, ok := p.ingestOf(in); ok {
-			if jr.unite {
-				if !isItem(fr, src) {
-					problems = append(problems, fmt.Sprintf("ingest at %s appends %s, not the whole input slice", p.InstrPos(in), p.SymFrame(fr, src)))
-					return nil
-				}
-			} else {
-				el, okv := varargsElem(src)
-				if !okv || !isItem(fr, el) {
-					problems = append(problems, fmt.Sprintf("ingest at %s appends %s, not exactly the received element", p.InstrPos(in), p.SymFrame(fr, src)))
-					return nil
-				}
-			}
-			return bump(st)
-		}
-		if v, ok := p.emitInstr(in); ok {
-			pl := p.payloadOrigin(fr, v)
-			if pl.origin == "item" && pl.root == ssa.Value(itemParam) {
-				if pl.sliced {
-					problems = append(problems, "forward at "+p.InstrPos(in)+" sends a sub-slice of the input slice")
-				}
-				return bump(st)
-			}
-		}
-		return nil
-	}
-	fl.Edge = func(fr *Frame, st string, from *ssa.BasicBlock, succ int) []string {
-		if st == "X" {
-			return nil
-		}
-		if v, ok := p.emitEdge(from, succ); ok {
-			pl := p.payloadOrigin(fr, v)
-			if pl.origin == "item" && pl.root == ssa.Value(itemParam) {
-				return bump(st)
-			}
-		}
-		if p.stopEdge(from, succ) {
-			return []string{"X"}
-		}
-		if val, ok := p.unreleasedEdge(from, succ); ok && val {
-			return []string{"X"}
-		}
-		return nil
-	}
-	fl.Exit = func(fr *Frame, st string, ret *ssa.Return) []string {
-		if fr.Parent != nil {
-			return nil
-		}
-		switch st {
-		case "0":
-			problems = append(problems, "a path returning at "+p.InstrPos(ret)+" neither ingests nor forwards the received value: it is lost")
-		case "2":
-			problems = append(problems, "a path returning at "+p.InstrPos(ret)+" ingests/forwards the received value more than once: it is duplicated")
-		}
-		return nil
-	}
-	fl.Run(fn, []string{"0"})
-	c.R.Check(len(problems) == 0, "J2", joinKey(jr, fn, ""), p.Pos(fn.Pos()), "exactly one whole ingest (or whole forward) per received value", strings.Join(dedup(problems), "; "))
-}
 
 // J3+J4: buffer typestate over the whole goroutine.
 func checkJ34(c *Ctx, jr *joinRoles) {
@@ -210,289 +95,14 @@ func checkJ34(c *Ctx, jr *joinRoles) {
 		p3 = append(p3, "no output send reached from the goroutine entry")
 	}
 	c.R.Check(len(p3) == 0, "J3", jr.key, p.Pos(jr.emitFn.Pos()), "every payload is the whole buffer or a whole input slice", strings.Join(dedup(p3), "; "))
-	c.R.Check(len(p4) == 0, "J4", jr.key, p.Pos(jr.flush.Pos()), "send(B) -> reset before any ingest or second send; no reset without send", strings.Join(dedup(p4), "; "))
+	c.R.Check(len(p4) == 0, "J4", jr.key, p.Pos(jr.entry.Pos()), "send(B) -> reset before any ingest or second send; no reset without send", strings.Join(dedup(p4), "; "))
 }
 
 func edgesOf(in ssa.Instruction) []CondEdge { return InstrDomEdges(in) }
 
-// J5: emit(B) under len(B) != 0; forward under len(item) >= JoinSize; ctor rejects JoinSize 0.
-func checkJ5(c *Ctx, jr *joinRoles) {
-	p := jr.p
-	n := 0
-	for _, fn := range jr.rt.Funcs {
-		for _, b := range fn.Blocks {
-			for _, in := range b.Instrs {
-				call, ok := in.(*ssa.Call)
-				if !ok || p.Callee(call) != jr.emitFn {
-					continue
-				}
-				n++
-				arg := call.Call.Args[1]
-				if p.isFieldLoad(arg, "join") {
-					ok := false
-					for _, e := range edgesOf(call) {
-						t := p.termCmpOnEdge(e)
-						if t == nil {
-							continue
-						}
-						if t.impliesLess("0", "lenB", true) || (t.Op == token.NEQ && t.K == 0 && ((t.L == "lenB" && t.R == "0") || (t.L == "0" && t.R == "lenB"))) {
-							ok = true
-						}
-					}
-					c.R.Check(ok, "J5", joinKey(jr, fn, fmt.Sprintf("emit.%d", n)), p.InstrPos(call), "buffer sent only when non-empty", "the buffer can be sent while empty: an empty output slice is produced")
-				} else {
-					// forward of a parameter: the caller's guard
-					for _, cs := range p.CallSites(fn) {
-						ok := false
-						for _, e := range edgesOf(cs) {
-							if t := p.termCmpOnEdge(e); t.impliesLess("JS", "lenItem", false) {
-								ok = true
-							}
-						}
-						c.R.Check(ok, "J5", joinKey(jr, cs.Parent(), "forward"), p.InstrPos(cs), "input slice forwarded alone only when len >= JoinSize", "an input slice shorter than JoinSize can be forwarded on its own (possibly empty)")
-					}
-				}
-			}
-		}
-	}
-	// constructor
-	found := false
-	for _, ctor := range jr.d.Ctors {
-		for fn := range p.Reach(ctor) {
-			for _, b := range fn.Blocks {
-				iff, ok := b.Instrs[len(b.Instrs)-1].(*ssa.If)
-				if !ok {
-					continue
-				}
-				cm := p.NormCmp(iff.Cond, true)
-				if cm == nil {
-					continue
-				}
-				l, r := deepStrip(cm.L), deepStrip(cm.R)
-				isJS := func(s *Sym) bool {
-					_, path, ok := s.FieldPath()
-					return ok && path[len(path)-1] == "JoinSize"
-				}
-				zero := func(s *Sym, k int64) bool { return s.String() == "0" && k == 0 }
-				if cm.Op == token.EQL && ((isJS(l) && zero(r, cm.RC)) || (isJS(r) && zero(l, cm.LC))) {
-					if ret, ok := b.Succs[0].Instrs[len(b.Succs[0].Instrs)-1].(*ssa.Return); ok && !isNilConst(ret.Results[len(ret.Results)-1]) {
-						found = true
-					}
-				}
-			}
-		}
-	}
-	c.R.Check(found, "J5", jr.key+"#ctor", p.Pos(jr.d.Ctors[0].Pos()), "constructor rejects JoinSize == 0", "constructor does not reject JoinSize == 0 (then every slice, even an empty one, counts as full)")
-}
 
-// J6: after an ingest the accept function either flushes or leaves under len(B) < JoinSize.
-func checkJ6(c *Ctx, jr *joinRoles) {
-	p := jr.p
-	fn := jr.accept
-	var ingests []ssa.Instruction
-	for _, b := range fn.Blocks {
-		for _, in := range b.Instrs {
-			if _, ok := p.ingestOf(in); ok {
-				ingests = append(ingests, in)
-			}
-		}
-	}
-	if len(ingests) == 0 {
-		c.R.Fail("J6", joinKey(jr, fn, ""), p.Pos(fn.Pos()), "UNRESOLVED-ANCHOR: accept function has no ingest of the buffer")
-		return
-	}
-	for i, ing := range ingests {
-		var problems []string
-		fl := &Flow{P: p, ContextInsensitive: true}
-		fl.Instr = func(fr *Frame, st string, in ssa.Instruction) []string {
-			if in == ing {
-				return []string{"pending"}
-			}
-			return nil
-		}
-		fl.Call = func(fr *Frame, st string, call ssa.CallInstruction, deferred bool) (bool, []string) {
-			if p.Callee(call) == jr.flush {
-				if st == "pending" {
-					return true, []string{"ok"}
-				}
-				return true, []string{st}
-			}
-			return false, nil
-		}
-		fl.Edge = func(fr *Frame, st string, from *ssa.BasicBlock, succ int) []string {
-			if st != "pending" || from.Parent() != fn {
-				return nil
-			}
-			e := CondEdge{from, succ}
-			if t := p.termCmpOnEdge(e); t.impliesLess("lenB", "JS", true) {
-				// the length must have been read after the ingest
-				iff := from.Instrs[len(from.Instrs)-1].(*ssa.If)
-				fresh := true
-				var visit func(v ssa.Value)
-				seen := map[ssa.Value]bool{}
-				visit = func(v ssa.Value) {
-					if v == nil || seen[v] {
-						return
-					}
-					seen[v] = true
-					if ld, ok := v.(*ssa.UnOp); ok && ld.Op == token.MUL && p.isFieldLoad(ld, "join") {
-						if !instrDominates(ing, ld) {
-							fresh = false
-						}
-						return
-					}
-					if in, ok := v.(ssa.Instruction); ok {
-						for _, op := range in.Operands(nil) {
-							visit(*op)
-						}
-					}
-				}
-				visit(iff.Cond)
-				if fresh {
-					return []string{"ok"}
-				}
-			}
-			if p.stopEdge(from, succ) {
-				return []string{"ok"}
-			}
-			return nil
-		}
-		fl.Exit = func(fr *Frame, st string, ret *ssa.Return) []string {
-			if fr.Parent == nil && st == "pending" {
-				problems = append(problems, "after the ingest a path returns at "+p.InstrPos(ret)+" without flushing and without having established len(buffer) < JoinSize: the buffer can grow beyond JoinSize")
-			}
-			return nil
-		}
-		fl.Run(fn, []string{"idle"})
-		c.R.Check(len(problems) == 0, "J6", joinKey(jr, fn, fmt.Sprintf("ingest.%d", i+1)), p.InstrPos(ing), "flush, or leave under len(B) < JoinSize", strings.Join(dedup(problems), "; "))
-	}
-}
 
-// J7 (unite): fit facts at the ingest and the forward.
-func checkJ7(c *Ctx, jr *joinRoles) {
-	if !jr.unite {
-		return
-	}
-	p := jr.p
-	fn := jr.accept
-	var problems []string
-	has := func(st, f string) bool { return strings.Contains(","+st+",", ","+f+",") }
-	add := func(st string, fs ...string) string {
-		m := map[string]bool{}
-		for _, x := range strings.Split(st, ",") {
-			if x != "" {
-				m[x] = true
-			}
-		}
-		for _, f := range fs {
-			m[f] = true
-		}
-		return strings.Join(sortedKeys(m), ",")
-	}
-	del := func(st string, fs ...string) string {
-		m := map[string]bool{}
-		for _, x := range strings.Split(st, ",") {
-			if x != "" {
-				m[x] = true
-			}
-		}
-		for _, f := range fs {
-			delete(m, f)
-		}
-		return strings.Join(sortedKeys(m), ",")
-	}
-	ingests, forwards := 0, 0
-	fl := &Flow{P: p, ContextInsensitive: true}
-	fl.Instr = func(fr *Frame, st string, in ssa.Instruction) []string {
-		if fr.Parent != nil {
-			return nil
-		}
-		if _, ok := p.ingestOf(in); ok {
-			ingests++
-			if !(has(st, "fits") || (has(st, "empty") && (has(st, "small") || has(st, "le")))) {
-				problems = append(problems, fmt.Sprintf("ingest at %s is reached without len(item)+len(buffer) <= JoinSize being established (known: %q): the output slice can exceed JoinSize or an input slice is split", p.InstrPos(in), st))
-			}
-			return []string{del(st, "fits", "empty")}
-		}
-		return nil
-	}
-	fl.Call = func(fr *Frame, st string, call ssa.CallInstruction, deferred bool) (bool, []string) {
-		if fr.Parent != nil {
-			return false, nil
-		}
-		switch p.Callee(call) {
-		case jr.flush:
-			return true, []string{add(st, "empty")}
-		case jr.forward:
-			forwards++
-			if !has(st, "big") {
-				problems = append(problems, "forward at "+p.InstrPos(call)+" is not restricted to slices of at least JoinSize elements")
-			}
-			if !has(st, "empty") {
-				problems = append(problems, "forward at "+p.InstrPos(call)+" is not preceded by a flush of the buffer: the oversize slice overtakes earlier elements")
-			}
-			return true, []string{st}
-		}
-		return false, nil
-	}
-	fl.Edge = func(fr *Frame, st string, from *ssa.BasicBlock, succ int) []string {
-		if fr.Parent != nil {
-			return nil
-		}
-		t := p.termCmpOnEdge(CondEdge{from, succ})
-		if t == nil {
-			return nil
-		}
-		out := st
-		if t.impliesLess("lenItem", "JS", true) {
-			out = add(out, "small")
-		}
-		if t.impliesLess("lenItem", "JS", false) {
-			out = add(out, "le")
-		}
-		if t.impliesLess("JS", "lenItem", false) {
-			out = add(out, "big")
-		}
-		if t.impliesLess("lenB+lenItem", "JS", false) && !has(st, "dirty") {
-			out = add(out, "fits")
-		}
-		return []string{out}
-	}
-	fl.Run(fn, []string{""})
-	if ingests == 0 || forwards == 0 {
-		problems = append(problems, fmt.Sprintf("UNRESOLVED-ANCHOR: %d ingests and %d forwards found in the accept function", ingests, forwards))
-	}
-	c.R.Check(len(problems) == 0, "J7", joinKey(jr, fn, ""), p.Pos(fn.Pos()), "ingest only when the whole slice fits (or after a flush with a small slice); forward only big slices after a flush", strings.Join(dedup(problems), "; "))
-}
 
-// J8: loop functions defer the flush before reading anything.
-func checkJ8(c *Ctx, jr *joinRoles) {
-	p := jr.p
-	for _, fn := range jr.loops {
-		ok := false
-		for _, in := range fn.Blocks[0].Instrs {
-			if df, isD := in.(*ssa.Defer); isD && p.Callee(df) == jr.flush {
-				ok = true
-				break
-			}
-			if _, isSel := in.(*ssa.Select); isSel {
-				break
-			}
-			if u, isU := in.(*ssa.UnOp); isU && u.Op == token.ARROW {
-				break
-			}
-		}
-		c.R.Check(ok, "J8", joinKey(jr, fn, ""), p.Pos(fn.Pos()), "flush deferred before the first receive", "the accumulated tail is not flushed on every exit of the loop function (no unconditional deferred flush): elements are lost at end of input")
-	}
-	order, okd := DeferRunOrder(jr.entry)
-	closes := false
-	for _, df := range order {
-		if k, a := p.deferKind(df); k == "close" && a == "field:output" {
-			closes = true
-		}
-	}
-	c.R.Check(okd && closes, "J8", joinKey(jr, jr.entry, "close"), p.Pos(jr.entry.Pos()), "output closed by the entry's defer, after the loop function (and its deferred flush) returned", "output is not closed by an unconditional defer of the goroutine entry")
-}
 
 func init() {
 	register(&Property{
@@ -511,18 +121,18 @@ func init() {
 
 func runJoinProperty(c *Ctx, id string) {
 	r := c.R
-	r.Doc("J0", "role resolution by effect: loop functions, accept, flush, emit, forward, timeout predicate", 3)
+	r.Doc("J0", "anchor resolution: the goroutine, its input receives and output sends (the rules are stated over events, not over functions)", 3)
 	jrs := joinDiscs(c)
 	switch id {
 	case "C03":
-		r.Doc("J1", "each received value handed to the accept function exactly once; closed input observed", 6)
-		r.Doc("J2", "accept: exactly one whole ingest or whole forward", 3)
+		r.Doc("J1", "each value received with ok=true is ingested or forwarded exactly once before the next receive (all callees inlined); closed input observed; nothing is taken after close", 6)
+		r.Doc("J2", "every ingest appends the whole received value, every forward sends the whole slice", 5)
 		r.Doc("J3", "payloads are whole (no slice expressions), origin = buffer or input slice", 3)
 		r.Doc("J4", "buffer typestate: send -> reset -> ingest; no reset without send", 3)
-		r.Doc("J5", "non-empty sends; forward only len >= JoinSize; ctor rejects JoinSize 0", 7)
-		r.Doc("J6", "after ingest: flush or leave under len(B) < JoinSize", 3)
+		r.Doc("J5", "the buffer is sent only under a valid len(B) != 0 fact; a slice is forwarded alone only under len >= JoinSize; ctor rejects JoinSize 0", 6)
+		r.Doc("J6", "after an ingest, before the next receive: the buffer is sent or a fresh len(B) < JoinSize holds", 3)
 		r.Doc("J7", "unite: fit facts at ingest and forward", 1)
-		r.Doc("J8", "deferred flush first in loop functions; entry defers close(output)", 9)
+		r.Doc("J8", "no path leaves a loop function with elements in the buffer (except after a stop clause); entry defers close(output)", 8)
 		for _, jr := range jrs {
 			checkJ1(c, jr)
 			checkJ2(c, jr)
@@ -534,12 +144,12 @@ func runJoinProperty(c *Ctx, id string) {
 		}
 	case "C11":
 		r.MinCount["J0"] = 1
-		r.Doc("J2", "accept: exactly one whole ingest or whole forward", 1)
+		r.Doc("J2", "every ingest appends the whole received slice, every forward sends the whole slice", 2)
 		r.Doc("J3", "payloads are whole", 1)
 		r.Doc("J4", "buffer typestate", 1)
 		r.Doc("J5", "non-empty sends; forward only len >= JoinSize", 2)
 		r.Doc("J7", "unite: fit facts at ingest and forward", 1)
-		r.Doc("J1", "each received slice handed to the accept function exactly once; end of input is recognised by the closed flag only (an empty or nil slice is data)", 2)
+		r.Doc("J1", "each received slice is ingested or forwarded exactly once; end of input is recognised by the closed flag only (an empty or nil slice is data)", 2)
 		for _, jr := range jrs {
 			if !jr.unite {
 				continue
